@@ -195,6 +195,7 @@ def falsify(ctx):
                 hit.update({"sample": s, "fields": fields, "regex": enc_regex(regex)})
                 yield hit
         ctx.sample({"sample": samples[0], "fields": fields, "regex": enc_regex(regex)}, limit=2)
+    yield from check_cli_reuse(ctx, rng)
     # the command-line form of the regular expressions
     for k in range(len(CLI_EXPRS) + ctx.n(10, 200)):
         exprs = [CLI_EXPRS[k]] if k < len(CLI_EXPRS) else rng.sample(CLI_EXPRS, k=rng.randint(2, 3))
@@ -205,6 +206,30 @@ def falsify(ctx):
         ctx.case(("cli", tuple(exprs)), nontrivial=True)
         if hit:
             yield hit
+
+
+def check_cli_reuse(ctx, rng):
+    """a `Cli` object that handled a command line WITH dict-key options and then one WITHOUT them: the second run types
+    objects by the options of the second command line only (compared with a fresh object)"""
+    import tempfile
+    from .. import clitools
+    sample = [{"payload": {"a": 1, "b": 2}, "codes": {"1": "x", "22": "y"}, "plain": {"k": 1}, "n": 1}]
+    with_opts = [["--dict-keys-fields", "payload"], ["--dkr", r"\d+"], ["--dkf", "plain", "payload", "--dkr", r"\d+", "[a-z]"]]
+    with tempfile.TemporaryDirectory(prefix="j2m-c13-") as d:
+        clitools.write_files(d, {"s.json": sample})
+        base = ["-m", "Root", "s.json"]
+        for opts in with_opts:
+            for second in ([], ["--dkf", "n"], ["--dkr", "zzz"]):
+                seq = [base + opts, base + second]
+                try:
+                    r = clitools.run_cli_sequence(seq, d, ctx.repo)
+                except Exception as e:  # noqa
+                    yield {"kind": "cli-reuse-raises", "sequence": seq, "observed": str(e)[-300:]}
+                    continue
+                ctx.case(("cli-reuse", tuple(opts), tuple(second)), nontrivial=True)
+                if r["reused"][-1] != r["fresh_last"]:
+                    yield {"kind": "cli-option-state-leaks", "sequence": seq,
+                           "observed": {"second_run_on_reused_object": r["reused"][-1], "fresh_object": r["fresh_last"]}}
 
 
 CLI_EXPRS = [r"\d+", r"\w+\$", r"^\d+$", r"^k\d", r"k\d$", r"a|b", r"node_\d+", r"x\$", r"[$]", r"(a)$", r"\^a", r"$", r"^",
@@ -233,6 +258,13 @@ def check_cli_anchoring(exprs):
 
 
 def replay(ctx, hit):
+    if hit.get("kind") in ("cli-option-state-leaks", "cli-reuse-raises"):
+        import tempfile
+        from .. import clitools
+        with tempfile.TemporaryDirectory(prefix="j2m-c13-") as d:
+            clitools.write_files(d, {"s.json": [{"payload": {"a": 1, "b": 2}, "codes": {"1": "x", "22": "y"}, "plain": {"k": 1}, "n": 1}]})
+            r = clitools.run_cli_sequence(hit["sequence"], d, ctx.repo)
+        return {"kind": "cli-option-state-leaks", "observed": r} if r["reused"][-1] != r["fresh_last"] else None
     if hit.get("kind") == "cli-anchoring":
         return check_cli_anchoring(hit["exprs"])
     try:
